@@ -481,6 +481,27 @@ impl E1Oracle for C02Oracle {
         q.push(ABSENT);
         check_queries(g, &q, &mut |_, _, _, _| {});
     }
+    fn fingerprint(&mut self, g: &G, alphabet: &Alphabet) -> u64 {
+        let mut h = 0u64;
+        fp_mix(&mut h, g.number_of_nodes() as u64);
+        fp_mix(&mut h, g.get_all_edges().len() as u64);
+        for &n in &alphabet.names {
+            fp_mix(&mut h, g.get_edges_for_node(n).map_or(u64::MAX, |v| v.len() as u64));
+            fp_mix(&mut h, g.get_neighbor_nodes(n).map_or(u64::MAX, |v| v.len() as u64));
+            fp_mix(&mut h, g.get_successor_nodes(n).map_or(u64::MAX, |v| v.len() as u64));
+            fp_mix(&mut h, g.get_predecessor_nodes(n).map_or(u64::MAX, |v| v.len() as u64));
+            fp_mix(&mut h, g.get_successors_map().get(n).map_or(u64::MAX, |v| v.len() as u64));
+            fp_mix(&mut h, g.get_predecessors_map().get(n).map_or(u64::MAX, |v| v.len() as u64));
+            if g.has_node(&n) {
+                fp_mix(&mut h, g.breadth_first_search(&n).len() as u64);
+            }
+            for &m in &alphabet.names {
+                fp_mix(&mut h, g.get_edge(n, m).map_or(u64::MAX, |e| wbits(e.weight)));
+                fp_mix(&mut h, g.get_edges(n, m).map_or(u64::MAX, |v| v.len() as u64));
+            }
+        }
+        h
+    }
     fn state(&mut self, s: &StateCtx, rec: &Recorder, c: &mut Counters) {
         let mut q: Vec<N> = s.alphabet.names.clone();
         q.push(ABSENT);
